@@ -110,6 +110,20 @@ Proof.
               (reads_only_during_parse V unpickle decode crepr std s thr))).
 Qed.
 
+(* ... in particular neither what precedes the analysed pickle in the stream nor what follows it (a second
+   pickle, garbage) is ever handed to the unpickler: for ANY pre, rest and any complete pickle b *)
+Theorem C02_surroundings_never_executed : forall s thr pre b rest r bs,
+  s_kind s = KSeekable -> s_off s = List.length pre -> s_at s T_PARSE = pre ++ b ++ rest ->
+  load_model KSeekable b 0 = LOk r -> l_end r = List.length b ->
+  r_loaded (load s thr) = Some bs -> bs = b.
+Proof. exact (surroundings_irrelevant V unpickle decode crepr std). Qed.
+
+(* The returned object (and the event trace) is the stock unpickler's on the bytes it was handed. *)
+Theorem C02_equals_stock : forall s thr v,
+  r_out (load s thr) = Return v ->
+  exists bs, r_loaded (load s thr) = Some bs /\ unpickle bs = (UVal v, r_events (load s thr)).
+Proof. exact (equals_stock V unpickle decode crepr std). Qed.
+
 (* All three armings are the same function: after ANY hook history in which the ML environment is not
    active, pickle.load under always_check_safety() and inside the context manager -- whatever
    threshold the context manager was given -- is load at LIKELY_SAFE, which is at or below every
@@ -183,6 +197,12 @@ Example C02_nonvacuous_parse_error :
     = mkRun (Raise (XParse LNotImpl)) [] None [T_PARSE].
 Proof. vm_compute. split; reflexivity. Qed.
 
+(* the hypotheses of C02_surroundings_never_executed are met: b_none is a complete pickle *)
+Example C02_nonvacuous_surroundings :
+  exists r, load_model KSeekable b_none 0 = LOk r /\ l_end r = List.length b_none /\
+            s_at s_swap T_PARSE = b_none ++ b_none ++ b_evil /\ s_off s_swap = List.length b_none.
+Proof. eexists. split; [vm_compute; reflexivity|]. vm_compute. repeat split. Qed.
+
 (* the hypothesis of C02_armed_equiv is met by non-trivial histories *)
 Example C02_nonvacuous_history :
   let h := [HEnter; HProbe PLoad (mkP true []); HLeave; HActivate []; HRemove; HArm] in
@@ -198,5 +218,7 @@ Print Assumptions C02_fail_closed_cases.
 Print Assumptions C02_unsafe_carries_verdict.
 Print Assumptions C02_effects_only_if_accepted.
 Print Assumptions C02_bytes_executed_are_bytes_analysed.
+Print Assumptions C02_surroundings_never_executed.
+Print Assumptions C02_equals_stock.
 Print Assumptions C02_armed_equiv.
 Print Assumptions C02_threshold_table.
